@@ -456,6 +456,11 @@ type Contract struct {
 	Uses      []string // lemmas made available (entry and loop heads)
 	Recvs     map[int][]*Clause // assumptions about the n-th channel receive
 	GhostDefs []*Clause         // post-conditions that define ghost state: assumed at call sites, not checked on the body (listed)
+	AtCuts    []*Clause         // assertions at the concurrency cut
+	Conform   []string          // iface contracts: implementers to verify against this contract
+	ImplOf    string            // synthesized conformance view: key of the iface contract it checks
+	AltRecv   string            // conformance view: the implementer's own receiver name (its loop invariants use it)
+	AltParams []string          // conformance view: the implementer's own positional parameter names
 }
 
 type Pred struct {
@@ -603,10 +608,10 @@ func clauseWord(l string) string {
 
 func isClauseStart(w string) bool {
 	switch w {
-	case "requires", "ensures", "exit", "before", "modifies", "pure", "loop", "assume", "trusted", "noinline", "serves", "option", "induction", "uses", "trigger", "recv", "ghostdef":
+	case "requires", "ensures", "exit", "before", "modifies", "pure", "loop", "assume", "trusted", "noinline", "serves", "option", "induction", "uses", "trigger", "recv", "ghostdef", "conform", "atcut":
 		return true
 	}
-	return strings.HasPrefix(w, "ensures[") || strings.HasPrefix(w, "requires[") || strings.HasPrefix(w, "exit[") || strings.HasPrefix(w, "before[")
+	return strings.HasPrefix(w, "ensures[") || strings.HasPrefix(w, "requires[") || strings.HasPrefix(w, "exit[") || strings.HasPrefix(w, "before[") || strings.HasPrefix(w, "atcut[")
 }
 
 func splitTags(word string) (string, []string) {
@@ -816,6 +821,15 @@ func (db *SpecDB) parseDecl(d *rawDecl) error {
 			}
 			cl.Ord = len(c.Befores[callee]) + 1
 			c.Befores[callee] = append(c.Befores[callee], cl)
+		case "atcut":
+			// asserted in the state at the concurrency cut (option stop-at-concurrency): what the sequential prefix establishes
+			// for the concurrent phase that follows (e.g. queue capacities)
+			cl, err := mk("atcut", body)
+			if err != nil {
+				return err
+			}
+			cl.Ord = len(c.AtCuts) + 1
+			c.AtCuts = append(c.AtCuts, cl)
 		case "exit":
 			// exit-state assertion over parameters, results and function-level locals: checked at every return where all
 			// names it mentions are in scope; not part of the interface (callers do not see it)
@@ -893,6 +907,9 @@ func (db *SpecDB) parseDecl(d *rawDecl) error {
 			c.Recvs[n] = append(c.Recvs[n], cl)
 		case "serves":
 			c.Serves = append(c.Serves, strings.Fields(body)...)
+		case "conform":
+			// iface contracts: implementers whose bodies are verified against this contract ("all" = every in-package implementer)
+			c.Conform = append(c.Conform, strings.Fields(body)...)
 		case "option":
 			f := strings.Fields(body)
 			if len(f) >= 2 {
